@@ -201,6 +201,11 @@ def run(ctx):
     progs = dict(list(families.all_families().items())[:: (6 if quick else 2)])
     for k in range(3 if quick else 20):
         progs["gen%d" % k] = Gen(ctx.seed * 3000017 + k).program()
+    # modules whose instructions work on temporaries and on every kind of heap object (the C14 families): run as compiled and mutated
+    import props.c14 as c14
+    heapy = dict(c14.alias_family()); heapy.update(c14.churn_family(3))
+    for k in sorted(heapy):
+        progs["heap_" + k] = heapy[k]
     rnd = random.Random(ctx.seed)
     files, desc = [], {}
     for pid, pr in progs.items():
@@ -210,7 +215,7 @@ def run(ctx):
         if not os.path.exists(path):
             continue
         b = open(path, "rb").read()
-        for j, (what, mb) in enumerate(mutants(ctx, b, table, rnd, 150 if quick else 1500)):
+        for j, (what, mb) in enumerate([("as compiled", b)] + list(mutants(ctx, b, table, rnd, (150 if not pid.startswith("heap_") else 20) if quick else 1500))):
             fp = os.path.join(d, "mut%d.nvm" % j)
             open(fp, "wb").write(mb)
             files.append(fp); desc[fp] = (pid, what)
